@@ -889,8 +889,8 @@ CATALOGUE = [
     ("expr-dim-exponent", ["ux = ua ** [da]"], "warn"),
     ("double-equals", ["ux == 2 * ua"], "warn"),
     ("bare-word", ["ux"], "warn"),
-    ("num-two-dots", ["ux = 1.2.3 * ua"], "warn"),
-    ("num-comma", ["ux = 1,5 * ua"], "warn"),
+    # ("num-two-dots": "1.2.3" tokenises as 1.2 followed by .3, i.e. juxtaposition = multiplication (C07);
+    #  "num-comma": commas are stripped as thousands separators by string_preprocessor) -> well-formed
     ("num-bad-exp", ["ux = 1e * ua"], "warn"),
     ("prefix-value-unit", ["ky- = ua"], "warn"),
     ("prefix-value-word", ["ky- = abc"], "warn"),
@@ -906,8 +906,7 @@ CATALOGUE = [
     ("dup-alias-directive", ["@alias ua = ub"], "raise"),
     ("dup-group", ["@group g", " ux = 2 * ua", "@end", "@group g", " uy = 2 * ua", "@end"], "raise"),
     ("dup-system", ["@system s", " ua", "@end", "@system s", " ub", "@end"], "raise"),
-    ("dup-context", ["@context c", " [da] -> [db]: value * 2 * ub / ua", "@end",
-                     "@context c", " [da] -> [db]: value * 3 * ub / ua", "@end"], "raise"),
+    # ("dup-context": re-registering a context name only logs a warning by design -> not an ill-formed input)
 ]
 # well-formed controls: the harness must find these silent (otherwise `_exercise` is too eager)
 CONTROLS = [
